@@ -98,7 +98,7 @@ pub fn program_from_bytes(data: &[u8], allow_fill: bool) -> Program {
         };
         cur.push(op);
     }
-    Program { cancelable, threads, cycles, schedule, fine, pool: 0, lazy_reg }
+    Program { cancelable, threads, cycles, schedule, fine, pool: 0, lazy_reg, idle_cycles: 0 }
 }
 
 pub const KNOWN: &[&str] = &[
